@@ -9,6 +9,7 @@ mod matrix;
 mod solout;
 mod monitors;
 mod runs;
+mod xsolve;
 
 fn main() {
     let args: Vec<String> = std::env::args().collect();
@@ -23,6 +24,7 @@ fn main() {
         "xmatrix" => matrix::run(rest),
         "matrix-oracle" => matrix::oracle(rest),
         "xsolout" => solout::run(rest),
+        "xsolve" => xsolve::run(rest),
         "event-check" => monitors::events(rest),
         "teval-check" => monitors::teval(rest),
         "interval-check" => runs::interval(rest),
